@@ -94,14 +94,14 @@ pub open spec fn clean(ts: Seq<BaseToken>, e: int, a: int, b: int) -> bool { for
 pub open spec fn kk() -> int { KKK }
 // entry condition: live cursor, buffer invariant, and enough room: K nodes per remaining token plus K slack
 pub open spec fn pre(t: Tokens, b: ParseBuffer) -> bool {
-	live(t) && pb_inv(b) && b.num_nodes + kk() * rem(t) + kk() <= b.nodes@.len()
+	live(t) && pb_inv(b) && zinv(b) && b.num_nodes + kk() * rem(t) + kk() <= b.nodes@.len()
 }
 // exit condition (Ok and Err alike): same token list and window; nothing consumed after an EndOfSource; at most one
 // step beyond the window; buffer only extended; at most K nodes per consumed token plus the function's constant c
 pub open spec fn post(t0: Tokens, b0: ParseBuffer, t1: Tokens, b1: ParseBuffer, c: int) -> bool {
 	&&& t1.tokens == t0.tokens && ok_at(t1, lim(t0)) && pos(t0) <= pos(t1) <= endp(t0) + 1
 	&&& clean(toks(t0), lim(t0), pos(t0), pos(t1) - 1)
-	&&& pb_inv(b1) && extends(b0, b1)
+	&&& pb_inv(b1) && extends(b0, b1) && zinv(b1)
 	&&& b1.num_nodes - b0.num_nodes <= kk() * (pos(t1) - pos(t0)) + c
 }
 // on success the cursor is still live in the same window and every consumed token was a real, non-EndOfSource token
@@ -113,7 +113,7 @@ pub open spec fn linv(t0: Tokens, b0: ParseBuffer, t: Tokens, b: ParseBuffer, c:
 	&&& pre(t0, b0)
 	&&& t.tokens == t0.tokens && live(t) && lim(t) == lim(t0) && pos(t0) <= pos(t)
 	&&& clean(toks(t0), lim(t0), pos(t0), pos(t))
-	&&& pb_inv(b) && extends(b0, b)
+	&&& pb_inv(b) && extends(b0, b) && zinv(b)
 	&&& b.num_nodes - b0.num_nodes <= kk() * (pos(t) - pos(t0)) + c
 }
 // an open list created inside the current function: its last item is still a placeholder and lies above the entry mark
@@ -186,6 +186,7 @@ pub open spec fn wfs(s: Seq<ParseNode>, i: int, a: Option<int>) -> bool
 		_ => wfs(s, i + 1, a),
 	} }
 }
+#[verifier::opaque]
 pub open spec fn zinv(b: ParseBuffer) -> bool { wfs(cells(b), 0, zidx(b)) }
 
 proof fn lemma_wfs_push_plain(s: Seq<ParseNode>, i: int, a: Option<int>, n: ParseNode)
@@ -272,4 +273,19 @@ proof fn lemma_wfs_update_plain(s: Seq<ParseNode>, i: int, a: Option<int>, k: in
 			_ => { lemma_wfs_update_plain(s, i + 1, a, k, n); },
 		}
 	}
+}
+
+// what the header builder needs (spec/u_hdr_spec.rs: wfz, tree_ok): the scan invariant of the buffer implies it, whether
+// or not a zone is still open at the end of the file
+proof fn lemma_wfs_implies_wfz(s: Seq<ParseNode>, i: int, a: Option<int>)
+	requires wfs(s, i, a), 0 <= i
+	ensures wfz(s, i)
+	decreases s.len() - i
+{
+	if i >= s.len() { } else { match s[i] {
+		ParseNode::StartPrivateZone { end } => { lemma_wfs_implies_wfz(s, u24v(end.0) + 1, a); },
+		ParseNode::EndPrivateZone { .. } => {},
+		ParseNode::EndlessPrivateZone => {},
+		_ => { lemma_wfs_implies_wfz(s, i + 1, a); },
+	} }
 }
